@@ -35,6 +35,7 @@ type Prog struct {
 	Repo     string
 	LoadSecs float64
 	GOOS     string
+	Overlay  map[string][]byte // file contents that replace the ones on disk (seeded changes)
 
 	funcs map[string]map[string]*Func // pkg path -> "T.M"|"F" -> Func
 	byObj map[*types.Func]*Func
@@ -96,7 +97,7 @@ func Load(o LoadOpts) (*Prog, error) {
 	if len(roots) == 0 || len(roots) < o.MinRoots {
 		return nil, fmt.Errorf("loaded %d root packages for %v, want >= %d", len(roots), o.Patterns, max(1, o.MinRoots))
 	}
-	p := &Prog{Fset: fset, Roots: roots, All: map[string]*packages.Package{}, Repo: repo, GOOS: o.GOOS}
+	p := &Prog{Fset: fset, Roots: roots, All: map[string]*packages.Package{}, Repo: repo, GOOS: o.GOOS, Overlay: o.Overlay}
 	var bad []string
 	packages.Visit(roots, nil, func(pk *packages.Package) {
 		p.All[pk.PkgPath] = pk
@@ -128,6 +129,15 @@ func Load(o LoadOpts) (*Prog, error) {
 	}
 	p.LoadSecs = time.Since(t0).Seconds()
 	return p, nil
+}
+
+// Source returns the analysed contents of a source file: the overlay's version
+// when the file is overlaid (seeded change applied in memory), else the file on disk.
+func (p *Prog) Source(name string) ([]byte, error) {
+	if b, ok := p.Overlay[name]; ok {
+		return b, nil
+	}
+	return os.ReadFile(name)
 }
 
 // Pkg returns the package with the given module-relative path ("tsdb/engine/tsm1")
